@@ -118,7 +118,11 @@ def main(argv):
         def one(item):
             name, sd, pids = item
             out = []
-            for pid, r in run(sd, pids, tier).items():
+            try:
+                results = run(sd, pids, tier)
+            except subprocess.CalledProcessError as exc:
+                return [f'{name} {pid} EXIT99 0s  patch does not apply to the current tree ({exc.cmd[:2]})' for pid in pids]
+            for pid, r in results.items():
                 verdict = {0: 'MISSED', 1: 'CAUGHT'}.get(r['exit'], f"EXIT{r['exit']}")
                 out.append(f'{name} {pid} {verdict} {r["wall"]}s  {(r["lines"] or [""])[0][:160]}')
             return out
